@@ -7,6 +7,7 @@
 -/
 import Kopf.Lemmas.C19_Watch
 import Kopf.Lemmas.C19_Ensemble
+import Kopf.Lemmas.C19_Orchestrator
 namespace Kopf.C19
 
 /-! ## Within one watch -/
@@ -290,5 +291,94 @@ theorem exactly_one_watch_lingering_witness :
   refine ⟨by decide, by decide, ?_⟩
   rintro ⟨_, _, n, hn, _⟩
   simp at hn
+
+
+/-! ## The orchestrator around `insights.revised`: revisions arriving at any time -/
+
+open Orch in
+/-- **A revision cannot fall into a pass, and never goes unnoticed.** With the pass running under the
+    lock (the code as it is): an observer can revise the insights only while the orchestrator is inside
+    `wait()`, and afterwards the orchestrator is notified — a pass will follow. -/
+theorem revise_wakes (ls : List Orch.Label) (s s' : Orch.State) (ins' : Insights)
+    (hr : Orch.run (Orch.init true) ls = some s) (hs : Orch.step s (.revise ins') = some s') :
+    (s.pc = .waiting ∨ s.pc = .notified) ∧ s'.pc = .notified ∧ s'.ins = ins' := by
+  have hl := (Orch.oinv_run Orch.oinv_init hr).locked
+  simp only [Orch.step] at hs
+  cases hpc : s.pc <;> simp [Orch.lockFree, hpc, hl] at hs <;> subst hs <;> simp [hpc]
+
+open Orch in
+/-- A notified orchestrator can always go on: a started pass runs to its end (back to `wait()`). -/
+theorem pass_progress (s : Orch.State) (h : s.pc ≠ .waiting) :
+    ∃ l s', (l = .acquire ∨ l = .termDone ∨ l = .spawnAll) ∧ Orch.step s l = some s' := by
+  cases hpc : s.pc with
+  | waiting => exact absurd hpc h
+  | notified => exact ⟨.acquire, { s with pc := .stopping s.ins }, Or.inl rfl, by simp [Orch.step, hpc]⟩
+  | stopping snap => exact ⟨.termDone, { s with ens := terminate s.ens snap, pc := .spawning }, Or.inr (Or.inl rfl), by simp [Orch.step, hpc]⟩
+  | spawning => exact ⟨.spawnAll, { s with ens := spawn s.ens (pairs s.ins), pc := .waiting, hist := s.hist ++ [s.ins] }, Or.inr (Or.inr rfl), by simp [Orch.step, hpc]⟩
+
+open Orch in
+/-- **No lost wake-up.** For every interleaving of observer revisions and orchestrator segments: whenever
+    the orchestrator is quiescent (in `wait()`, not notified) and anything was ever revised, the ensemble
+    is exactly what `adjust_tasks` over a history of insights ENDING WITH THE CURRENT ONES produces — the
+    latest revision has been applied in full (one snapshot per pass, every snapshot a real revision). -/
+theorem no_lost_wakeup (ls : List Orch.Label) (s : Orch.State)
+    (hr : Orch.run (Orch.init true) ls = some s) (hq : Orch.Quiescent s) (hrev : s.revs ≠ []) :
+    ∃ pre, s.ens = runHist Ens.empty (pre ++ [s.ins]) ∧ ∀ i ∈ pre ++ [s.ins], i ∈ s.revs := by
+  have h := Orch.oinv_run Orch.oinv_init hr
+  have hp := h.pcInv
+  unfold Orch.Quiescent at hq
+  simp only [Orch.PcInv, hq] at hp
+  obtain ⟨he, hor⟩ := hp
+  rcases hor with ⟨h0, _⟩ | ⟨pre, hpre⟩
+  · exact absurd h0 hrev
+  · exact ⟨pre, by rw [he, hpre], by rw [← hpre]; exact h.histIn⟩
+
+open Orch in
+/-- **Exactly the served pairs are watched, with revisions arriving at any time** — the asynchronous
+    lift of `exactly_one_watch_partial` (same guard, stated over every revision ever made): at
+    quiescence the watcher keys are the served pairs of the CURRENT insights. -/
+theorem exactly_one_watch_async_partial (ls : List Orch.Label) (s : Orch.State)
+    (hr : Orch.run (Orch.init true) ls = some s) (hq : Orch.Quiescent s) (hrev : s.revs ≠ [])
+    (hscope : ∀ i ∈ s.revs, ∀ j ∈ s.revs, ∀ r ∈ i.watched, ∀ r' ∈ j.watched, r.name = r'.name → r.namespaced = r'.namespaced)
+    (hmode : (∀ i ∈ s.revs, i.namespaces = [none]) ∨
+      ((∀ i ∈ s.revs, none ∉ i.namespaces) ∧ (s.ins.namespaces ≠ [] ∨ ∀ r ∈ s.ins.watched, r.namespaced = true)))
+    (k : Key) : k ∈ s.ens.keys ↔ Target s.ins k := by
+  obtain ⟨pre, he, hin⟩ := no_lost_wakeup ls s hr hq hrev
+  rw [he]
+  apply exactly_one_watch_partial pre s.ins
+  · intro i hi j hj
+    exact hscope i (hin i hi) j (hin j hj)
+  · rcases hmode with hc | ⟨hn, hg⟩
+    · exact Or.inl (fun i hi => hc i (hin i hi))
+    · exact Or.inr ⟨fun i hi => hn i (hin i hi), hg⟩
+
+/-- a run with two revisions squeezed in before the orchestrator gets the lock back -/
+example :
+    (Orch.run (Orch.init true)
+      [.revise ⟨[⟨"kex", true⟩], [some "a", some "c"]⟩, .acquire, .termDone, .spawnAll,
+       .revise ⟨[⟨"kex", true⟩], [some "c"]⟩, .revise ⟨[⟨"kex", true⟩], [some "b"]⟩, .acquire, .termDone, .spawnAll]).map
+      (fun s => (s.pc, s.ens.keys)) = some (.waiting, [("kex", some "b")]) := by decide
+
+/-- under the lock a revision in the middle of a pass is simply not enabled -/
+example :
+    (Orch.run (Orch.init true)
+      [.revise ⟨[⟨"kex", true⟩], [some "a"]⟩, .acquire, .revise ⟨[⟨"kex", true⟩], [some "b"]⟩]).isNone = true := by decide
+
+/-- **Releasing the lock before the pass loses wake-ups.** In the variant whose pass runs outside
+    `async with insights.revised` (`lockedPass = false`): ns a and c served; a is deleted → a pass starts
+    and suspends stopping a's watcher (its handler is in flight); meanwhile c is deleted and b created —
+    nobody waits on the condition, the notification is lost; the pass drops a with its old snapshot and
+    spawns b from the live insights. The orchestrator ends quiescent watching {c, b}; served is {b}. -/
+theorem unlocked_pass_loses_wakeup_witness :
+    ∃ (ls : List Orch.Label) (s : Orch.State),
+      Orch.run (Orch.init false) ls = some s ∧ Orch.Quiescent s ∧
+      s.ens.keys = [("kex", some "c"), ("kex", some "b")] ∧ ¬ Target s.ins ("kex", some "c") := by
+  refine ⟨[.revise ⟨[⟨"kex", true⟩], [some "a", some "c"]⟩, .acquire, .termDone, .spawnAll,
+           .revise ⟨[⟨"kex", true⟩], [some "c"]⟩, .acquire,
+           .revise ⟨[⟨"kex", true⟩], [some "b"]⟩, .termDone, .spawnAll], _, rfl, by unfold Orch.Quiescent; decide, by decide, ?_⟩
+  rintro ⟨r, hr, n, hn, hk⟩
+  simp at hr hn
+  subst hr hn
+  simp [dkey] at hk
 
 end Kopf.C19
